@@ -13,7 +13,7 @@ RULE = ('cases = one constructor invocation observed by its wrapper: compute_bat
         'tokens; selector columns with 1..20 values incl. ""), repeated equally sized batches in one process, plus direct calls of each '
         'constructor in shuffled orders. distinct = (constructor, flag subset, frame hash); non-trivial = the constructor added at least '
         'one column.')
-REQUIRED = {'additive-row-aligned': 100, 'caller-frame-untouched': 100, 'multivalue-rule': 30, 'subfeature-rule': 30, 'control-target=label': 4, 'constructors-reached': 5}
+REQUIRED = {'additive-row-aligned': 100, 'caller-frame-untouched': 100, 'multivalue-rule': 30, 'subfeature-rule': 30, 'control-target=label': 4, 'constructors-reached': 5, 'interaction-rule': 20}
 ASSUMPTIONS = ['frames have a RangeIndex and hold strings (what the pipeline builds from parsed lines)', 'feature names avoid "&", "|" and "-" so that constructed names are unambiguous',
                'with noise controls on, compute_batch_ranking raises later in the cardinality update (float controls cannot be hashed); no property claims that combination, the constructor itself is still observed']
 WARM = [{}]
@@ -119,6 +119,22 @@ class Wrappers:
             sh.check('subfeature-rule', set(got) == set(expected) and not bad, 'sub-feature!=stated-rule',
                      lambda: wit(wrong_columns=bad[:4], missing_columns=sorted(set(expected) - set(got))[:4], extra_columns=sorted(set(got) - set(expected))[:4],
                                  example={bad[0]: {'got': got[bad[0]][:20], 'expected': expected[bad[0]][:20]}} if bad else None))
+        if name == 'compute_combined_features':
+            # rule of interaction columns: equal values exactly on rows that agree on every constituent
+            for c in new:
+                for join in (' AND_REL ', ' AND '):
+                    parts = str(c).split(join)
+                    if len(parts) > 1 and all(p_ in before.columns for p_ in parts):
+                        tuples = list(zip(*[before[p_].tolist() for p_ in parts]))
+                        vals = out[c].tolist()
+                        t2v, v2t, bad = {}, {}, None
+                        for tp, v in zip(tuples, vals):
+                            if t2v.setdefault(tp, v) != v:
+                                bad = ('same tuple, different values', tp, t2v[tp], v)
+                            if v2t.setdefault(v, tp) != tp:
+                                bad = ('different tuples, same value', v2t[v], tp, v)
+                        sh.check('interaction-rule', bad is None, 'interaction-column-not-faithful-to-constituents', lambda: wit(column=str(c), problem=bad))
+                        break
         if name == 'include_noisy_features' and args is not None and args.label_column in before.columns:
             ok = 'CONTROL-target' in out.columns and out['CONTROL-target'].tolist() == before[args.label_column].tolist()
             sh.check('control-target=label', ok, 'CONTROL-target!=label', lambda: wit(control=out['CONTROL-target'].tolist()[:20] if 'CONTROL-target' in out.columns else None, label=before[args.label_column].tolist()[:20]))
@@ -127,7 +143,7 @@ class Wrappers:
                         'first_row': before.iloc[0].tolist() if nrows else None} if self.reached.get(name, 0) in (1, 7) else None)
 
 
-MV_TOKENS = ['a', 'b', 'ab', 'abc', '1', '12', '21', '3', 'x y', '', '{}', 'é', 'sel', ' a', 'A']
+MV_TOKENS = ['a', 'b', 'ab', 'abc', '1', '12', '21', '3', 'x y', '', '{}', 'é', 'sel', ' a', 'A', '1.5', '105', 'c+d', 'cd', 'u|v', 'u', '(x', 'a*', 'aa', '[b]', '^a', 'a$', '\\d', '7']
 
 
 def make_frame(rng, nprng, n, max_sel=20):
